@@ -33,6 +33,13 @@ CLAIMED['C10'] = dict(
     note='Trusted: rustc MIR, the driver, documented behaviour of Vec::len/push/get_mut. The oracle table is transcribed from the property statement (DESIGN.md C10).',
     technique='static analysis: MIR effect (write-set) analysis per match arm + provenance + dominance')
 
+CLAIMED['C01'] = dict(
+    category='other',
+    text='Static layout + provenance analysis over rustc MIR. For each of the 14 decoder bodies every non-error CFG path is enumerated (loops unrolled 0/1/2, reader-taking helpers inlined; nothing is executed), giving labelled sequences of reader-primitive calls that must equal the sequences generated from a hand-transcribed table of the Aseprite file-format spec (widths, signedness, order, optional parts under the right flag bit, repeat counts from the right field). Every stored struct field must then have exactly one origin - the read bound to the like-named spec field - through value-preserving casts, every public getter must return that stored field, no call may reorder layers/tags/slices/keys, frame durations are stored and read at the frame index, every chunk code reaches its own decoder on its own payload, name lookups scan forward. Decides the structural clauses for all inputs and chunk programs; does not decide that values survive std (UTF-8, HashMap).',
+    design_ref='DESIGN.md section 4, C01',
+    note='Trusted: rustc MIR, the driver, tables/spec_layout.json (the oracle, transcribed from the spec document linked by the crate), std container contracts. Loop unrolling bound 2, helper inlining depth 3 (deepest real chain 3).',
+    technique='static analysis: bounded CFG path enumeration of read schedules vs spec table + MIR provenance (origin) dataflow')
+
 ALL = ['C%02d' % i for i in range(1, 20)]
 
 
